@@ -59,6 +59,26 @@ pub fn trace(args: &Args) {
     let n = args.num("n", 2000);
     let maxlen = args.num("maxlen", 48);
     let mut out = Ndjson::create(args.get("out"));
+    // systematic family: strings of every length 1..=single that differ in exactly one position
+    // (every position; difference +1 and top-bit flip) - catches any per-position / per-word blindness
+    let single = args.num("single", 0) as usize;
+    for len in 1..=single {
+        let a = rng.bytes(len);
+        for i in 0..len {
+            for d in 0..2 {
+                let mut b = a.clone();
+                b[i] = if d == 0 { a[i].wrapping_add(1) } else { a[i] ^ 0x80 };
+                match catch(|| (cmp_i(&a, &b), eq_b(&a, &b), cmp_i(&b, &a))) {
+                    Ok((c, e, c2)) => {
+                        out.ev(json!({"ev": "memcmp", "a": a, "b": b, "res": c}));
+                        out.ev(json!({"ev": "memeq", "a": a, "b": b, "res": e}));
+                        out.ev(json!({"ev": "memcmp", "a": b, "b": a, "res": c2}));
+                    }
+                    Err(m) => out.ev(json!({"ev": "panic", "fn": "single", "a": a, "b": b, "panic": m})),
+                }
+            }
+        }
+    }
     for k in 0..n {
         let len = rng.range(1, maxlen) as usize;
         let a = rng.bytes(len);
